@@ -182,3 +182,23 @@ def sort_calls(fn):
         if ir.is_call(x) and ir.call_name(x) in SORTS:
             out.append(x)
     return out
+
+
+def check_whole_range(chk, rule, sort_call, where, key, name):
+    """The sort covers the whole container: its range is C.begin() .. C.end() of one container C (a sort over a
+    sub-range leaves the remaining elements in insertion order, which is not the filtration order)."""
+    import re
+    args = [ir.show(a).replace(' ', '') for a in ir.call_args(sort_call)]
+    ok = False
+    detail = 'range arguments: %s' % args[:2]
+    if len(args) >= 2:
+        m1 = re.match(r'^(?:std::)?(?:begin\((.+)\)|(.+)\.begin\(\))$', args[0])
+        m2 = re.match(r'^(?:std::)?(?:end\((.+)\)|(.+)\.end\(\))$', args[1])
+        if m1 and m2:
+            c1 = m1.group(1) or m1.group(2)
+            c2 = m2.group(1) or m2.group(2)
+            ok = c1 == c2
+            if ok:
+                detail = ''
+    chk.ob(rule, '%s sorts the whole container' % name, where, ok, detail, key=key)
+    return ok
